@@ -18,8 +18,7 @@ SHARD = 40
 JOBS = 12
 COQ_IMPORTS = "From DS Require Import Check.C01."
 TRUSTED = ["argsort hints validated in Coq (as C01)", "patching a module-level constant of the staged copy"]
-ASSUMPTIONS = ["untied reduced distances (except fully interchangeable units)",
-               "label renaming: utilities proved invariant, null-vector step exercised by the correspondence only"]
+ASSUMPTIONS = ["untied reduced distances (except fully interchangeable units)"]
 
 
 def permute_rows(ds, pi):
@@ -194,7 +193,9 @@ MANIFEST = {
             "distance transforms keep every unit's nearest row and exactly the admissible rank orders), "
             "C07_units_renamed (row reordering = unit renaming), C07_batch_size (get_test_batch_size = n_test for every "
             "budget) + C07_batch_loop_general, C07_interchangeable_units (Shapley symmetry), "
-            "C07_label_renaming_utilities + C07_null_shift (label renaming: PARTIAL, full statement kept as a Definition). "
+            "C07_label_renaming (in full: injective renaming of the class labels, any change of the class sort order and of "
+            "the tied class chosen by the null vector), via C07_label_renaming_utilities and "
+            "C07_null_vector_only_through_sum; C07_null_shift. "
             "Tied to the code metamorphically at API level: each dataset in up to 8 presentations, every presentation "
             "vs the model and the presentations vs each other, inside Coq.",
     "note": "Trusted: Coq kernel + vm_compute; harness; argsort hints validated. Untied reduced distances only.",
